@@ -125,6 +125,31 @@ theorem llh2xyz_equator (ell : Ellipsoid) (lon h : ℝ) :
   rw [llh2xyz_closed_form]
   simp [nu]
 
+theorem nu_neg (ell : Ellipsoid) (φ : ℝ) : nu ell (-φ) = nu ell φ := by
+  unfold nu; rw [Real.sin_neg, neg_sq]
+
+/-- mirror symmetry in the equatorial plane: the southern latitude gives the same `x`, `y` and the opposite `z`
+(for every ellipsoid value, longitude and height). -/
+theorem llh2xyz_mirror (ell : Ellipsoid) (lat lon h : ℝ) :
+    llh2xyz (-lat) lon h ell =
+      ((llh2xyz lat lon h ell).1, (llh2xyz lat lon h ell).2.1, -(llh2xyz lat lon h ell).2.2) := by
+  rw [llh2xyz_closed_form, llh2xyz_closed_form]
+  simp only [neg_mul, nu_neg, Real.sin_neg, Real.cos_neg, mul_neg]
+
+/-- the longitude is read modulo a full turn: `lon + 360` gives the same point. -/
+theorem llh2xyz_lon_period (ell : Ellipsoid) (lat lon h : ℝ) :
+    llh2xyz lat (lon + 360) h ell = llh2xyz lat lon h ell := by
+  have hl : (lon + 360) * (Real.pi / 180) = lon * (Real.pi / 180) + 2 * Real.pi := by ring
+  rw [llh2xyz_closed_form, llh2xyz_closed_form, hl, Real.sin_add_two_pi, Real.cos_add_two_pi]
+
+/-- the opposite meridian: `lon + 180` negates `x` and `y` and keeps `z`. -/
+theorem llh2xyz_opposite_meridian (ell : Ellipsoid) (lat lon h : ℝ) :
+    llh2xyz lat (lon + 180) h ell =
+      (-(llh2xyz lat lon h ell).1, -(llh2xyz lat lon h ell).2.1, (llh2xyz lat lon h ell).2.2) := by
+  have hl : (lon + 180) * (Real.pi / 180) = lon * (Real.pi / 180) + Real.pi := by ring
+  rw [llh2xyz_closed_form, llh2xyz_closed_form, hl, Real.sin_add_pi, Real.cos_add_pi]
+  simp only [mul_neg]
+
 /-- North/south pole (`lat = ±90`) on a constructed ellipsoid with `0 < f < 1`:
 `x = y = 0`, `z = ±(b + h)`. -/
 theorem llh2xyz_poles (a invf : ℝ) (ha : a ≠ 0) (hf0 : 0 < 1 / invf) (hf1 : 1 / invf < 1)
@@ -519,6 +544,9 @@ end GeodeVerif.C03
 #print axioms GeodeVerif.C03.llh2xyz_closed_form_init
 #print axioms GeodeVerif.C03.llh2xyz_equator
 #print axioms GeodeVerif.C03.llh2xyz_poles
+#print axioms GeodeVerif.C03.llh2xyz_mirror
+#print axioms GeodeVerif.C03.llh2xyz_lon_period
+#print axioms GeodeVerif.C03.llh2xyz_opposite_meridian
 #print axioms GeodeVerif.C03.on_ellipsoid
 #print axioms GeodeVerif.C03.xyz2llh_fixed_point
 #print axioms GeodeVerif.C03.fixed_point_algebra
